@@ -262,6 +262,39 @@ def check_partial_ord(chk, prog, sim):
         chk.discharge(key)
 
 
+def check_piece_conversions(chk, prog, sim, rule, key, want, tag=""):
+    """MotionProfilePiece -> PositionDerivative / Unit: defined exactly for the three moving pieces (shared with C06, which
+    also evaluates it with dimension checking compiled out, where only the presence pattern remains)."""
+    from program import units_enabled
+    ok = True
+    mp = prog.adt_by_name("MotionProfilePiece")
+    mty = {"k": "adt", "did": mp["did"], "name": "MotionProfilePiece", "args": []}
+    tp = Q.find_try_from(prog, "PositionDerivative", "MotionProfilePiece")
+    tu = Q.find_try_from(prog, "Unit", "MotionProfilePiece")
+    wantp = {"BeforeStart": None, "InitialAcceleration": "Acceleration", "ConstantVelocity": "Velocity", "EndAcceleration": "Acceleration", "Complete": None}
+    for vn, w in wantp.items():
+        for fnx, kind in ((tp, "pd"), (tu, "unit")):
+            if fnx is None:
+                raise AnchorMissing("TryFrom<MotionProfilePiece>")
+            ls = Q.run_simple(sim, fnx, [sim.mk_enum(mty, vn)])
+            chk.evaluated(1, nontrivial=(key, "piece", kind, vn, tag))
+            r = sim.final_value(ls[0].state, ls[0].value) if len(ls) == 1 and ls[0].kind == "return" else None
+            if w is None:
+                good = isinstance(r, Enum) and r.vname == "Err"
+            elif kind == "pd":
+                good = isinstance(r, Enum) and r.vname == "Ok" and r.fields[0].vname == w
+            elif not units_enabled(prog):
+                good = isinstance(r, Enum) and r.vname == "Ok"
+            else:
+                ex = Q.unit_exps(sim, ls[0].state, r.fields[0]) if isinstance(r, Enum) and r.vname == "Ok" else None
+                good = ex is not None and tuple(getattr(e, "val", None) for e in ex) == want[w]
+            if not good:
+                chk.violation(rule, "piece:%s:%s%s" % (kind, vn, tag), "%sconversion of MotionProfilePiece::%s to %s gives %r (defined exactly for the three moving pieces)" % (("[%s] " % tag.strip("@")) if tag else "", vn, kind, r),
+                              fn=fnx["pretty"], file=loc(fnx["span"]))
+                ok = False
+    return ok
+
+
 def check_conversions(chk, prog, sim):
     key = "g:conversions"
     chk.obligation(key, "position/velocity/acceleration <-> mm, mm/s, mm/s^2 in both directions; everything else rejected")
@@ -321,28 +354,8 @@ def check_conversions(chk, prog, sim):
             chk.violation("C01.conversion", "Quantity::from(Command::%s)" % vn, "Quantity::from(Command::%s(x)) = %r, expected (x, %s)" % (vn, r, w), fn=fc["pretty"], file=loc(fc["span"]))
             ok = False
     # MotionProfilePiece -> PositionDerivative -> Unit
-    mp = prog.adt_by_name("MotionProfilePiece")
-    mty = {"k": "adt", "did": mp["did"], "name": "MotionProfilePiece", "args": []}
-    tp = Q.find_try_from(prog, "PositionDerivative", "MotionProfilePiece")
-    tu = Q.find_try_from(prog, "Unit", "MotionProfilePiece")
-    wantp = {"BeforeStart": None, "InitialAcceleration": "Acceleration", "ConstantVelocity": "Velocity", "EndAcceleration": "Acceleration", "Complete": None}
-    for vn, w in wantp.items():
-        for fnx, kind in ((tp, "pd"), (tu, "unit")):
-            if fnx is None:
-                raise AnchorMissing("TryFrom<MotionProfilePiece>")
-            ls = Q.run_simple(sim, fnx, [sim.mk_enum(mty, vn)])
-            chk.evaluated(1, nontrivial=(key, "piece", kind, vn))
-            r = sim.final_value(ls[0].state, ls[0].value) if len(ls) == 1 and ls[0].kind == "return" else None
-            if w is None:
-                good = isinstance(r, Enum) and r.vname == "Err"
-            elif kind == "pd":
-                good = isinstance(r, Enum) and r.vname == "Ok" and r.fields[0].vname == w
-            else:
-                ex = Q.unit_exps(sim, ls[0].state, r.fields[0]) if isinstance(r, Enum) and r.vname == "Ok" else None
-                good = ex is not None and tuple(getattr(e, "val", None) for e in ex) == want[w]
-            if not good:
-                chk.violation("C01.conversion", "piece:%s:%s" % (kind, vn), "conversion of MotionProfilePiece::%s to %s gives %r" % (vn, kind, r), fn=fnx["pretty"], file=loc(fnx["span"]))
-                ok = False
+    if not check_piece_conversions(chk, prog, sim, "C01.conversion", key, want):
+        ok = False
     if ok:
         chk.discharge(key)
 
@@ -386,6 +399,17 @@ def check_eq_helpers(chk, prog, sim):
 
 
 def run_config(chk, cfg, primary):
+    before = len(chk.violations)
+    try:
+        _run_config(chk, cfg, primary)
+    finally:
+        if not primary:
+            for v in chk.violations[before:]:
+                v["key"] += "@" + cfg
+                v["what"] = "[configuration %s] %s" % (cfg, v["what"])
+
+
+def _run_config(chk, cfg, primary):
     prog = load_config(cfg)
     chk.configs.append(cfg)
     if not prog.adt_by_name("Unit")["variants"][0]["fields"]:
@@ -420,7 +444,10 @@ def run_config(chk, cfg, primary):
         if isinstance(r, Struct) and len(r.fields) == 2:
             v = r.fields[0]
             frel = [p for p in leaf.pc if p[0] == "frel"]
-            okv = v == Term("abs", (Sym("a.value"),)) or (frel and v in (Sym("a.value"), Term("Neg", (Sym("a.value"),))))
+            # with std the numeric part must be f32::abs itself ("exactly the f32 result of the same operator": |-0.0| = +0.0);
+            # the sign select is the audited variant of builds without std (C19.N), where it is all there is
+            has_std = "feature=std" in prog.facts.get("cfg", [])
+            okv = v == Term("abs", (Sym("a.value"),)) or (not has_std and frel and v in (Sym("a.value"), Term("Neg", (Sym("a.value"),))))
             ex = Q.unit_exps(sim, leaf.state, r.fields[1])
             okv = okv and ex == sym_unit("a.unit")
         if not okv:
@@ -447,6 +474,8 @@ def run(chk):
     chk.rule("C01.delegation", "mixed impls == Quantity operator after Quantity::from on non-Quantity operands (same outcomes incl. panics)")
     chk.rule("C01.conversion", "PositionDerivative/Command/MotionProfilePiece <-> Unit/Quantity tables over the 7x7 grid")
     run_config(chk, "K1", True)
+    # "with dimension checking enabled" also covers the release profile with dim_check_release (K7): the gates must be there too
+    run_config(chk, "K7", False)
     if chk.tier == "thorough":
         run_config(chk, "K2", False)
     chk.assume("i8 exponent overflow not modelled (exponents are mathematical integers)", "f32 operators are uninterpreted terms: 'same operator on raw values' is syntactic identity")
